@@ -213,6 +213,14 @@ type vfSim struct {
 
 	inspectAll bool // the node inspects all administrative records, not only those addressed to it
 	name       string // the node's name, "dtn://node/" unless the case runs two nodes
+	slow       int    // multiplier of the barrier's time limits (two real nodes: a broken TCPCLv4 session holds a Send for 10 s and a Start for 15 s)
+}
+
+func (s *vfSim) limit(d time.Duration) time.Duration {
+	if s.slow > 1 {
+		return d * time.Duration(s.slow)
+	}
+	return d
 }
 
 const vfNodeName = "dtn://node/"
@@ -352,11 +360,11 @@ func (s *vfSim) barrier(via *vfPeer) {
 	mb.PrimaryBlock.CreationTimestamp[1] = n
 	select {
 	case via.ch <- cla.NewConvergenceReceivedBundle(vfInlet{via}, s.nodeID, &mb):
-	case <-time.After(20 * time.Second):
-		s.failf("sim.stuck", "the node does not take events from its convergence layers any more (20 s)")
+	case <-time.After(s.limit(20 * time.Second)):
+		s.failf("sim.stuck", "the node does not take events from its convergence layers any more (%v)", s.limit(20*time.Second))
 	}
 	want := fmt.Sprintf("marker-%d", n)
-	deadline := time.After(30 * time.Second)
+	deadline := time.After(s.limit(30 * time.Second))
 	for {
 		for _, b := range s.marker.received() {
 			if pb, err := b.PayloadBlock(); err == nil && string(pb.Value.(*bpv7.PayloadBlock).Data()) == want {
@@ -369,7 +377,7 @@ func (s *vfSim) barrier(via *vfPeer) {
 		case <-s.marker.notify:
 		case <-time.After(2 * time.Millisecond):
 		case <-deadline:
-			s.failf("sim.stuck", "the node did not process an injected event within 30 s")
+			s.failf("sim.stuck", "the node did not process an injected event within %v", s.limit(30*time.Second))
 		}
 	}
 }
